@@ -207,6 +207,16 @@ func factsDownsample() {
 	emitList("dsFloatBatchCalls", "downsample.go downsampleFloatBatch: calls in source order", callSeq(body(fn(d, "", "downsampleFloatBatch")), "newAggrChunkBuilder", "Append", "downsampleBatch", "encode", "downsampleFloatBatchWith"))
 	emitList("dsDownsampleRawCalls", "downsample.go Downsample(): where DownsampleRaw is called (enclosing loops / ifs of every call, source order)",
 		dsCallContexts(body(fn(d, "", "Downsample")), "DownsampleRaw"))
+	q := parse("pkg/query/iter.go")
+	csi := body(fn(q, "chunkSeries", "Iterator"))
+	emitList("dsQuerierChunkLoops", "pkg/query/iter.go chunkSeries.Iterator: what every loop that builds the per-chunk iterators ranges over (all chunks of the series: no trimming)", dsForConds(csi))
+	emitList("dsQuerierBounded", "pkg/query/iter.go chunkSeries.Iterator: the NewBoundedSeriesIterator calls that wrap the result", func() []string {
+		var r []string
+		for _, c := range calls(csi, "NewBoundedSeriesIterator") {
+			r = append(r, text(c))
+		}
+		return r
+	}())
 	al := body(fn(d, "", "downsampleAggrLoop"))
 	emitStr("dsAggrBatchSize", "downsample.go downsampleAggrLoop: batchSize", dsAssignRHS(al, "batchSize"))
 	emitList("dsAggrLoopConds", "downsample.go downsampleAggrLoop: if-conditions in source order", dsIfConds(al))
